@@ -277,14 +277,17 @@ def build_solver(torch, spec):
     n_in = {'1d': 1, '2d': 2, 'bundle': 2}[kind]
     net = FCNN(n_in, 1, hidden_units=(3,)) if spec.get('net', 'plain') == 'plain' else PF.ModeNet(n_in, spec['net'])
     lr = spec.get('lr', 0.01)
-    opt = torch.optim.SGD(net.parameters(), lr=lr) if spec['opt'] == 'sgd' else torch.optim.Adam(net.parameters(), lr=lr)
+    opt = {'sgd': lambda: torch.optim.SGD(net.parameters(), lr=lr), 'adam': lambda: torch.optim.Adam(net.parameters(), lr=lr),
+           'clipped': lambda: PF.ClippedAdam(net.parameters(), lr=lr),          # subclass of a stock optimiser: load reuses the pickled object
+           'plaingd': lambda: PF.PlainGD(net.parameters(), lr=lr),              # user-written optimiser: rebuilt by class
+           'lbfgs': lambda: torch.optim.LBFGS(net.parameters(), lr=0.1, max_iter=2)}[spec['opt']]()
     nums = spec['numbers']
     if kind == '1d':
         cond = IVP(nums[0], nums[1]) if ck == 'ivp' else DirichletBVP(nums[0], nums[1], nums[0] + 1.0, nums[2])
         bounds = {} if spec.get('no_bounds') else {'t_min': nums[0], 't_max': nums[0] + 1.0}
         return Solver1D(PF.ode1, [cond], nets=[net], optimizer=opt, loss_fn=loss,
                         train_generator=make_gen(torch, spec, 1, nums[0], nums[0] + 1.0, 'train'),
-                        valid_generator=make_gen(torch, spec, 1, nums[0], nums[0] + 1.0, 'valid'), n_batches_valid=1, **bounds)
+                        valid_generator=make_gen(torch, spec, 1, nums[0], nums[0] + 1.0, 'valid'), **bounds)
     if kind == '2d':
         fs = {'functions': (PF.edge_sin, PF.edge_zero, PF.edge_lin, PF.edge_zero),
               'nosource': (PF.nosrc_a, PF.nosrc_b, PF.nosrc_c, PF.nosrc_d),
@@ -293,13 +296,13 @@ def build_solver(torch, spec):
         lo, hi = (nums[0], nums[1]), (nums[0] + 1.0, nums[1] + 1.0)
         return Solver2D(PF.pde_laplace, [cond], xy_min=lo, xy_max=hi, nets=[net], optimizer=opt, loss_fn=loss,
                         train_generator=make_gen(torch, spec, 2, lo, hi, 'train'),
-                        valid_generator=make_gen(torch, spec, 2, lo, hi, 'valid'), n_batches_valid=1)
+                        valid_generator=make_gen(torch, spec, 2, lo, hi, 'valid'))
     cond = BundleIVP(nums[0], nums[1]) if ck == 'ivp' else BundleIVP(nums[0], None, bundle_param_lookup={'u_0': 0})
     epi = (0,) if spec['eq_param'] else ()
     ode = PF.ode_bundle_param if spec['eq_param'] else PF.ode_bundle_plain
     return BundleSolver1D(ode, [cond], t_min=nums[0], t_max=nums[0] + 1.0, theta_min=(0.5,), theta_max=(1.5,), eq_param_index=epi,
                           nets=[net], optimizer=opt, loss_fn=loss, train_generator=make_gen(torch, spec, 3, nums[0], nums[0] + 1.0, 'train'),
-                          valid_generator=make_gen(torch, spec, 3, nums[0], nums[0] + 1.0, 'valid'), n_batches_valid=1)
+                          valid_generator=make_gen(torch, spec, 3, nums[0], nums[0] + 1.0, 'valid'))
 
 
 def grid(torch, spec):
@@ -440,6 +443,7 @@ def run_scenario(ck, torch, spec, workdir, label):
             PF.SCALE[0] = float(op[2])
             eps = []
             torch.manual_seed(spec['seed'] + 1000 + oi)         # every fit starts from a known RNG state (twin runs use the same)
+            fp_before_fit = [fp_net(n) for n in solver.nets]
             try:
                 solver.fit(op[1], callbacks=[rec_epochs(eps, solver)], tqdm_file=None)
                 fit_ok = True
@@ -466,7 +470,7 @@ def run_scenario(ck, torch, spec, workdir, label):
                 log.append((e['valid'], e['fp'], loads))
             trace.append([f'OFit {coq_epochs(eps)}', abstract(solver, ids, slots), None, tuple(rng_cnt)])
             fit_marks.append((oi, list(solver.metrics_history['train_loss']), list(solver.metrics_history['valid_loss']),
-                              [fp_net(n) for n in solver.nets], gen_counts(solver)))
+                              [fp_net(n) for n in solver.nets], gen_counts(solver), loads, fp_before_fit))
             ck.traces += len(eps)
             # ---- oracle: best tracking refers to the lowest validation loss of the WHOLE history
             vh = [float(v) for v in solver.metrics_history['valid_loss']]
@@ -540,8 +544,11 @@ def run_scenario(ck, torch, spec, workdir, label):
                             before['global_epoch'], loaded.global_epoch)
                 if fp_opt(loaded.optimizer) != before['opt']:
                     ck.fail('load/optimizer-differs', 'optimiser class / hyper-parameters / state differ after load', dict(inp, failing_op=oi))
-                if not any(p is q for n in loaded.nets for p in n.parameters() for g in loaded.optimizer.param_groups for q in g['params']):
-                    ck.fail('load/optimizer-not-linked', 'the loaded optimiser does not hold the loaded networks\' parameters', dict(inp, failing_op=oi))
+                net_ps = [p for n in loaded.nets for p in n.parameters()]
+                opt_ps = [q for g in loaded.optimizer.param_groups for q in g['params']]
+                if not (all(any(p is q for q in opt_ps) for p in net_ps) and all(any(q is p for p in net_ps) for q in opt_ps)):
+                    ck.fail('load/optimizer-not-linked', f'the param_groups of the loaded {type(loaded.optimizer).__name__} do not reference (by identity) '
+                            f'exactly the parameters of the loaded networks: training would not move them', dict(inp, failing_op=oi))
                 if spec['custom_loss'] and loaded.loss_fn is not before['loss_fn']:
                     ck.fail('load/bundle-loss_fn-dropped' if spec['kind'] == 'bundle' else 'load/loss_fn-differs',
                             f'the loaded {type(loaded).__name__} does not use the saved loss function', dict(inp, failing_op=oi))
@@ -567,7 +574,7 @@ def run_scenario(ck, torch, spec, workdir, label):
             ck.traces += 1
     # ---- oracle: the never-saved twin.  Same construction, same fits from the same RNG states, no save /
     # checkpoint: histories, networks and the spies' draw counts must coincide after every fit
-    if spec.get('twin') and not any(op[0] == 'saveload' for op in spec['ops']) and fit_marks:
+    if spec.get('twin') and fit_marks:
         PF.SCALE[0] = 1.0
         twin = build_solver(torch, spec)
         marks = {m[0]: m for m in fit_marks}
@@ -576,14 +583,20 @@ def run_scenario(ck, torch, spec, workdir, label):
                 continue
             PF.SCALE[0] = float(op[2])
             torch.manual_seed(spec['seed'] + 1000 + oi)
+            tw_before = [fp_net(n) for n in twin.nets]
             twin.fit(op[1], tqdm_file=None)
-            _, th, vh, fps, cnts = marks[oi]
+            _, th, vh, fps, cnts, n_loads, fp_before = marks[oi]
             got = (list(twin.metrics_history['train_loss']), list(twin.metrics_history['valid_loss']), [fp_net(n) for n in twin.nets], gen_counts(twin))
+            if n_loads and fps == fp_before and got[2] != tw_before:
+                ck.fail(f'load/networks-do-not-move/{kname}', f'fit({op[1]}) on the loaded solver ({spec["opt"]} optimiser) leaves its network parameters '
+                        f'unchanged, while the same fit moves the never-saved twin: the loaded solver cannot continue training', dict(inp, failing_op=oi))
+                break
             if got != (th, vh, fps, cnts):
                 what_differs = [n for n, x, y in zip(('train_loss history', 'valid_loss history', 'network parameters', 'generator draw counts'),
                                                      got, (th, vh, fps, cnts)) if x != y]
-                ck.fail(f'save/twin-diverges/{kname}', f'after save() and further training the solver differs from an identical solver that was never '
-                        f'saved (generator variant {spec.get("gen", "default")}): {", ".join(what_differs)}', dict(inp, failing_op=oi),
+                ck.fail(f'{"load" if n_loads else "save"}/twin-diverges/{kname}', f'after save(){" + load()" if n_loads else ""} and further training '
+                        f'the solver differs from an identical solver that was never saved (generator variant {spec.get("gen", "default")}, '
+                        f'{spec["opt"]} optimiser): {", ".join(what_differs)}', dict(inp, failing_op=oi),
                         {'train_loss': got[0][-3:], 'draws': got[3]}, {'train_loss': th[-3:], 'draws': cnts})
                 break
         ck.traces += len(fit_marks)
